@@ -151,6 +151,7 @@ pub fn run_world(prop: &str, tier: Tier, n: u64, tape: Tape) -> WorldReport {
         "C02" | "C03" | "C04" | "C05" | "C10" => crate::p_resolver::world(prop, tier, n, tape),
         // C14 listens to every engine
         "C14" => match n % 8 {
+            3 => crate::p_resolver::world_examples(tier, n, tape),
             4 => crate::p_wire::world_ir(tier, n, tape),
             5 => crate::p_wire::world_c11(tier, n, tape),
             6 => crate::p_wire::world_c16(tier, n, tape),
